@@ -385,7 +385,7 @@ fn unsized_api(name: &str, variant: &str, p: &Params, v0: &Candle, xs: &[Candle]
 	let e = |e: yata::core::Error| format!("constructor error: {e:?}");
 	fn conv_r(o: yata::methods::renko::RenkoOutput) -> Out {
 		let len = o.len();
-		Out::R(len, o.map(|b| (b.open, b.close, b.volume)).collect())
+		Out::R(len, o.take(64).map(|b| (b.open, b.close, b.volume)).collect())
 	}
 	macro_rules! go {
 		($t:ty, $params:expr, $conv:expr) => {{
